@@ -114,10 +114,11 @@ class OpSitePt(Case):
     timeout_s = 300
     first_timeout_s = 60
 
-    def __init__(self, n, bond, adims, rank):
-        self.n, self.bond, self.adims, self.rank = n, bond, adims, rank
-        self.id = "H1/op_site_pt/n%d_b%d_a%s_r%d" % (n, bond, "".join(map(str, adims)), rank)
-        self.bounds = {"d": 2, "sites": n, "bond": bond, "aug_dims": list(adims), "pt_rank": rank}
+    def __init__(self, n, bond, adims, rank, transforms=False):
+        self.n, self.bond, self.adims, self.rank, self.transforms = n, bond, adims, rank, transforms
+        self.id = "H1/op_site_pt/n%d_b%d_a%s_r%d%s" % (n, bond, "".join(map(str, adims)), rank, "_tr" if transforms else "")
+        self.bounds = {"d": 2, "sites": n, "bond": bond, "aug_dims": list(adims), "pt_rank": rank,
+                       "pt_transforms": "symbolic generalised permutations" if transforms else "none"}
 
     def run(self, inp):
         n = self.n
@@ -139,7 +140,7 @@ class OpSitePt(Case):
                 pts.append(TrivialProcessTensor())
                 effs.append(None)
                 continue
-            pt, eff, _ = _pt_with_in_bond(inp, "e%d" % s, step, self.adims[s], 2, self.rank)
+            pt, eff, _ = _pt_with_in_bond(inp, "e%d" % s, step, self.adims[s], 2, self.rank, self.transforms)
             pts.append(pt)
             effs.append(eff)
         b.apply_process_tensors(step, pts)
@@ -154,11 +155,15 @@ class OpSitePt(Case):
         return obs
 
 
-def _pt_with_in_bond(inp, name, step, bl, br, rank):
-    """process tensor whose MPO tensor number step-1 has past bond `bl`, future bond `br`"""
+def _pt_with_in_bond(inp, name, step, bl, br, rank, transforms=False):
+    """process tensor whose MPO tensor number step-1 has past bond `bl`, future bond `br`
+    (optionally with symbolic transform_in / transform_out)"""
     import oqupy.process_tensor as ptm
     D = 4
-    pt = ptm.SimpleProcessTensor(hilbert_space_dimension=2, dt=0.1)
+    tin = tout = None
+    if transforms:
+        tin, tout = tebd.make_transforms(inp, name, D)
+    pt = ptm.SimpleProcessTensor(hilbert_space_dimension=2, dt=0.1, transform_in=tin, transform_out=tout)
     for k in range(step - 1):
         pt.set_mpo_tensor(k, np.zeros((1, 1, D)))      # never read by the step under test
     if rank == 3:
@@ -172,6 +177,8 @@ def _pt_with_in_bond(inp, name, step, bl, br, rank):
         M = inp.arr(name + "M", (bl, br, D, D))
         full = M
     pt.set_mpo_tensor(step - 1, M)
+    if transforms:
+        full = tebd.apply_transforms(full, tin, tout)
     return pt, full, None
 
 
@@ -269,11 +276,14 @@ class ProdStep(Case):
     timeout_s = 600
     first_timeout_s = 60
 
-    def __init__(self, n, order, N, kind, ptbond, nopt=()):
+    def __init__(self, n, order, N, kind, ptbond, nopt=(), transforms=False):
         self.n, self.order, self.N, self.kind, self.ptbond, self.nopt = n, order, N, kind, ptbond, tuple(nopt)
-        self.id = "H1/prod/n%d_o%d_N%d_%s_ptb%d%s" % (n, order, N, kind, ptbond, "_nopt" + "".join(map(str, nopt)) if nopt else "")
+        self.transforms = transforms
+        self.id = "H1/prod/n%d_o%d_N%d_%s_ptb%d%s%s" % (n, order, N, kind, ptbond, "_nopt" + "".join(map(str, nopt)) if nopt else "",
+                                                        "_tr" if transforms else "")
         self.bounds = {"d": 2, "sites": n, "order": order, "steps": N, "gate_bond": 1, "gate_entries": kind,
-                       "pt_bond": ptbond, "sites_without_pt": list(nopt)}
+                       "pt_bond": ptbond, "sites_without_pt": list(nopt),
+                       "pt_transforms": "symbolic generalised permutations" if transforms else "none"}
 
     def run(self, inp):
         n, N = self.n, self.N
@@ -285,7 +295,7 @@ class ProdStep(Case):
                 pts.append(None)
                 ptobjs.append(None)
             else:
-                pt, _, _ = tebd.make_pt(inp, "e%d" % s, 2, N, self.ptbond, kind=self.kind)
+                pt, _, _ = tebd.make_pt(inp, "e%d" % s, 2, N, self.ptbond, kind=self.kind, transforms=self.transforms)
                 pts.append(pt)
                 ptobjs.append(pt)
         t, res, ok_calls = _run_pt_tebd(inp, n, self.order, N, rhos, gates, pts, list(range(n)))
@@ -330,12 +340,15 @@ class Step(Case):
     timeout_s = 900
     first_timeout_s = 60
 
-    def __init__(self, n, order, N, chi, kind, ptbond, nopt=(), ptrank=4):
+    def __init__(self, n, order, N, chi, kind, ptbond, nopt=(), ptrank=4, transforms=False):
         self.n, self.order, self.N, self.chi, self.kind, self.ptbond, self.nopt, self.ptrank = n, order, N, chi, kind, ptbond, tuple(nopt), ptrank
-        self.id = "H1/step/n%d_o%d_N%d_chi%d_%s_ptb%d_r%d%s" % (n, order, N, chi, kind, ptbond, ptrank,
-                                                              "_nopt" + "".join(map(str, nopt)) if nopt else "")
+        self.transforms = transforms
+        self.id = "H1/step/n%d_o%d_N%d_chi%d_%s_ptb%d_r%d%s%s" % (n, order, N, chi, kind, ptbond, ptrank,
+                                                                "_nopt" + "".join(map(str, nopt)) if nopt else "",
+                                                                "_tr" if transforms else "")
         self.bounds = {"d": 2, "sites": n, "order": order, "steps": N, "gate_bond": chi, "gate_entries": kind,
-                       "pt_bond": ptbond, "pt_rank": ptrank, "sites_without_pt": list(nopt)}
+                       "pt_bond": ptbond, "pt_rank": ptrank, "sites_without_pt": list(nopt),
+                       "pt_transforms": "symbolic generalised permutations" if transforms else "none"}
 
     def run(self, inp):
         n, N = self.n, self.N
@@ -348,7 +361,8 @@ class Step(Case):
                 effs.append(None)
                 caps.append([inp.const(np.ones(1))] * (N + 1))
             else:
-                pt, eff, cp = tebd.make_pt(inp, "e%d" % s, 2, N, self.ptbond, rank=self.ptrank, kind=self.kind)
+                pt, eff, cp = tebd.make_pt(inp, "e%d" % s, 2, N, self.ptbond, rank=self.ptrank, kind=self.kind,
+                                           transforms=self.transforms)
                 pts.append(pt)
                 effs.append(eff)
                 caps.append(cp)
@@ -773,9 +787,11 @@ class Fresh(Case):
 
 def cases(tier):
     cs = [OpNn(2, 0, 2, (1, 1), 2), OpNn(3, 1, 2, (2, 1, 2), 2), OpNn(3, 0, 2, (1, 2, 1), 1, twice=True),
-          OpSitePt(3, 2, (1, 1, 2), 4), OpSitePt(2, 2, (2, 1), 3),
+          OpSitePt(3, 2, (1, 1, 2), 4), OpSitePt(2, 2, (2, 1), 3), OpSitePt(2, 2, (2, 1), 4, transforms=True),
+          OpSitePt(3, 2, (1, 1, 2), 3, transforms=True),
           OpTraces(2, 2, (2, 1)), OpTraces(3, 2, (1, 2, 1))]
-    cs += [ProdStep(2, 1, 1, "dense", 1), ProdStep(3, 2, 1, "sparse", 1, nopt=(1,)), ProdStep(3, 1, 2, "perm", 2)]
+    cs += [ProdStep(2, 1, 1, "sparse", 1, transforms=True), Step(2, 1, 1, 2, "sparse", 1, transforms=True),
+           ProdStep(2, 1, 1, "dense", 1), ProdStep(3, 2, 1, "sparse", 1, nopt=(1,)), ProdStep(3, 1, 2, "perm", 2)]
     cs += [Step(2, 1, 1, 2, "dense", 1), Step(2, 2, 1, 2, "sparse", 1), Step(3, 1, 1, 2, "sparse", 1, nopt=(0,)),
            Step(2, 1, 2, 2, "sparse", 2, ptrank=3), Step(3, 2, 1, 2, "perm", 1)]
     cs += [NormOne(2, 1, 1, "dense"), NormOne(3, 2, 1, "perm")]
@@ -790,6 +806,7 @@ def cases(tier):
                NormOne(3, 1, 2, "perm"), NormOne(4, 2, 1, "perm"), Generator(2, 2), Generator(4, 1),
                NnGateReal(2, 3, "perm"), NnGateReal(3, 2, "perm")]
         cs += [ProdStep(2, 1, 2, "sparse", 2), ProdStep(3, 2, 1, "sparse", 1), ProdStep(4, 1, 2, "perm", 2), ProdStep(3, 2, 2, "perm", 2)]
+        cs += [Step(3, 2, 1, 2, "perm", 1, transforms=True), ProdStep(3, 1, 2, "perm", 2, transforms=True), OpSitePt(3, 2, (1, 1, 2), 4, transforms=True)]
         cs += [Step(4, 1, 1, 2, "perm", 1), Step(4, 2, 1, 2, "perm", 1), Step(3, 1, 2, 2, "perm", 2, ptrank=3)]
         cs += [Order(4, "multithread", 2, 2), Order(6, "multiprocess", 1, 1), OrderRun(4, 2, "multiprocess", "perm"), OrderRun(5, 1, "multithread", "perm")]
     return cs
